@@ -207,7 +207,12 @@ def merge_stats(parts):
     out = {"states": 0, "transitions": 0, "max_depth": 0,
            "merged_by_canon": 0, "distinct_observations": 0,
            "traces_validated_against_impl": 0, "exhaustive": True,
-           "violating_states": 0, "samples": [], "runs": []}
+           "violating_states": 0, "samples": [], "runs": [],
+           # runs whose frontier ran empty before the depth bound: every
+           # state reachable within the deviation bound was visited, so the
+           # verdict holds for histories of any length (as far as the
+           # canonical form is sound)
+           "runs_closed": 0}
     for name, s in parts:
         for k in ("states", "transitions", "merged_by_canon",
                   "distinct_observations", "traces_validated_against_impl",
@@ -224,5 +229,8 @@ def merge_stats(parts):
                             "deviation_bound": s["deviation_bound"],
                             "distinct_observations":
                                 s["distinct_observations"],
+                            "frontier_left": s.get("frontier_left"),
                             "cap_hit": s.get("cap_hit")})
+        if s.get("frontier_left") == 0 and not s.get("cap_hit"):
+            out["runs_closed"] += 1
     return out
